@@ -1391,4 +1391,113 @@ theorem LinkInv.rep {s : LDb} (h : LinkInv s) : Rep s (absList s) := by
 theorem linkInv_iff_rep (s : LDb) : LinkInv s ↔ ∃ L, Rep s L :=
   ⟨fun h => ⟨_, h.rep⟩, fun ⟨_, h⟩ => h.linkInv⟩
 
+/-! ### the operations on states that satisfy the link clause -/
+
+theorem rep_empty (blk : Nat) (hb : blk ≠ 0) : Rep (empty blk) [] := by
+  refine ⟨hb, by simp [ids], by simp, by simp [empty], by simp [empty], ?_, ?_, Or.inr ⟨rfl, rfl⟩, ?_⟩
+  · intro pre x l post hs; simp at hs
+  · apply ext_getD
+    · simp [empty]
+    · intro j hj
+      simp only [empty, List.length_replicate] at hj
+      rw [getD_map_range', if_pos hj]
+      simp [empty, nextAt, List.getD_eq_getElem?_getD, hj]
+  · apply ext_getD
+    · simp [empty]
+    · intro j hj
+      simp only [empty, List.length_replicate] at hj
+      rw [getD_map_range', if_pos hj]
+      simp [empty, cnt, List.getD_eq_getElem?_getD, hj]
+
+theorem split_at (L : AL) (pos : Nat) (t lt : Nat) (h : L[pos]? = some (t, lt)) :
+    L = L.take pos ++ (t, lt) :: L.drop (pos + 1) := by
+  obtain ⟨hlt, he⟩ := List.getElem?_eq_some_iff.1 h
+  conv => lhs; rw [← List.take_append_drop pos L, List.drop_eq_getElem_cons hlt, he]
+
+/-- **insertion keeps the link clause**: at every position, with every level below `SLEVELS` (clamped or not,
+    including a level above the current head level), for every block number not in use -/
+theorem LinkInv.insertAt {s : LDb} (h : LinkInv s) (pos nid lvl : Nat) (hn0 : nid ≠ 0) (hnb : nid ≠ s.blk)
+    (hfresh : nid ∉ order s) (hl : lvl < SLEVELS) :
+    LinkInv (insertAt s pos nid lvl) ∧
+    order (insertAt s pos nid lvl) = (order s).take pos ++ nid :: (order s).drop pos ∧
+    levels (insertAt s pos nid lvl) = (levels s).take pos ++ lvl :: (levels s).drop pos := by
+  have hr := h.rep
+  have hL : absList s = (absList s).take pos ++ (absList s).drop pos := (List.take_append_drop _ _).symm
+  have hidsA : (order s).take pos = ids ((absList s).take pos) := by
+    rw [← ids_absList s]; simp [ids]
+  have hnd := hr.nodup
+  rw [hL, ids_append, List.nodup_append] at hnd
+  rw [hL] at hr
+  have hA : ∀ p ∈ (absList s).take pos, ((order s).take pos).contains p.1 = true := by
+    intro p hp; rw [hidsA]; simp only [List.contains_eq_mem, decide_eq_true_eq]; exact mem_ids.2 ⟨p.2, hp⟩
+  have hB : ∀ p ∈ (absList s).drop pos, ((order s).take pos).contains p.1 = false := by
+    intro p hp; rw [hidsA]; simp only [List.contains_eq_mem, decide_eq_false_iff_not]
+    intro hx; exact hnd.2.2 p.1 hx p.1 (mem_ids.2 ⟨p.2, hp⟩) rfl
+  have hfr : nid ∉ ids ((absList s).take pos ++ (absList s).drop pos) := by rw [← hL, ids_absList]; exact hfresh
+  have hr' := hr.insert _ hA hB nid lvl hn0 hnb hfr hl
+  refine ⟨hr'.linkInv, ?_, ?_⟩
+  · show order (insert s _ nid lvl) = _
+    rw [hr'.order_eq, ids_append, ids_cons, ← ids_absList s]; simp [ids]
+  · show levels (insert s _ nid lvl) = _
+    rw [hr'.levels_eq, h.rep.levels_eq]; simp
+
+/-- **removal keeps the link clause**: of every node — first, last, only, of the top level -/
+theorem LinkInv.removeAt {s : LDb} (h : LinkInv s) (pos : Nat) (hpos : pos < (order s).length) :
+    LinkInv (removeAt s pos) ∧
+    order (removeAt s pos) = (order s).eraseIdx pos ∧
+    levels (removeAt s pos) = (levels s).eraseIdx pos := by
+  have hr := h.rep
+  have hget : (order s)[pos]? = some (order s)[pos] := List.getElem?_eq_getElem hpos
+  have hget' : (absList s)[pos]? = some ((order s)[pos], lvlOf s (order s)[pos]) := by
+    simp [absList, hget]
+  have hL := split_at _ _ _ _ hget'
+  have hr1 := hr
+  rw [hL] at hr1
+  have hr' := hr1.remove
+  simp only [KvLinks.removeAt, hget]
+  refine ⟨hr'.linkInv, ?_, ?_⟩
+  · rw [hr'.order_eq, List.eraseIdx_eq_take_drop_succ, ids_append, ← ids_absList s]; simp [ids]
+  · rw [hr'.levels_eq, hr.levels_eq, List.eraseIdx_eq_take_drop_succ]; simp
+
+theorem linkInv_empty (blk : Nat) (hb : blk ≠ 0) : LinkInv (empty blk) ∧ order (empty blk) = [] :=
+  ⟨(rep_empty blk hb).linkInv, by rw [(rep_empty blk hb).order_eq]; rfl⟩
+
+/-- a structural step is admissible: the position exists, the allocator hands out a block that is not in
+    use, the level fits -/
+def LOp.ok (s : LDb) : LOp → Prop
+  | .ins _ nid lvl => nid ≠ 0 ∧ nid ≠ s.blk ∧ nid ∉ order s ∧ lvl < SLEVELS
+  | .rm pos => pos < (order s).length
+
+def OpsOk : LDb → List LOp → Prop
+  | _, [] => True
+  | s, op :: ops => op.ok s ∧ OpsOk (step s op) ops
+
+/-- the effect of a structural step on the level sequence -/
+def stepLevels (l : List Nat) : LOp → List Nat
+  | .ins pos _ lvl => l.take pos ++ lvl :: l.drop pos
+  | .rm pos => l.eraseIdx pos
+
+theorem LinkInv.step {s : LDb} (h : LinkInv s) (op : LOp) (hok : op.ok s) :
+    LinkInv (step s op) ∧ levels (step s op) = stepLevels (levels s) op := by
+  cases op with
+  | ins pos nid lvl =>
+    obtain ⟨h1, h2, h3, h4⟩ := hok
+    have := h.insertAt pos nid lvl h1 h2 h3 h4
+    exact ⟨this.1, this.2.2⟩
+  | rm pos =>
+    have := h.removeAt pos hok
+    exact ⟨this.1, this.2.2⟩
+
+theorem LinkInv.run {s : LDb} (h : LinkInv s) (ops : List LOp) (hok : OpsOk s ops) :
+    LinkInv (run s ops) ∧ levels (run s ops) = ops.foldl stepLevels (levels s) := by
+  induction ops generalizing s with
+  | nil => exact ⟨h, rfl⟩
+  | cons op ops ih =>
+    obtain ⟨h1, h2⟩ := hok
+    have hs := h.step op h1
+    have := ih hs.1 h2
+    simp only [KvLinks.run, List.foldl_cons] at this ⊢
+    rw [← hs.2]
+    exact this
+
 end IwModel.KvLinks
